@@ -46,10 +46,11 @@ type attHist struct {
 	attestors []*attestor // configured
 	strangers []*attestor
 	minSigs   uint32
-	recs      map[string][3]any // "hash|sig" -> [hash hex, sig hex, addr hex or nil]
-	keccaks   map[string]string // input hex -> keccak hex
-	decP      map[string]any    // data hex -> decoded packet attestation or nil
-	decS      map[string]any    // data hex -> decoded state attestation or nil
+	tags      []attestations.AttestationType // domain tags for which recovery results are recorded
+	recs      map[string][3]any              // "hash|sig" -> [hash hex, sig hex, addr hex or nil]
+	keccaks   map[string]string              // input hex -> keccak hex
+	decP      map[string]any                 // data hex -> decoded packet attestation or nil
+	decS      map[string]any                 // data hex -> decoded state attestation or nil
 	oldState  []*attestations.AttestationProof
 	oldPacket []*attestations.AttestationProof
 	ops       []any
@@ -67,7 +68,7 @@ func (h *attHist) recordRecover(data []byte, sig []byte) {
 	if len(sig) != attestations.SignatureLength {
 		return
 	}
-	for _, tag := range []attestations.AttestationType{attestations.AttestationTypeState, attestations.AttestationTypePacket, 0, 3} {
+	for _, tag := range h.tags {
 		hash := attestations.TaggedSigningInput(data, tag)
 		norm := append([]byte(nil), sig...)
 		switch norm[64] {
@@ -388,7 +389,7 @@ func (h *attHist) opVerify(mode string, special, nonmember bool) {
 	note := "valid"
 	// the attested packets: the queried one among others
 	packets := []attestations.PacketCompact{}
-	for i, n := 0, r.Intn(3); i < n; i++ {
+	for i, n := 0, r.Intn(2); i < n; i++ {
 		packets = append(packets, attestations.PacketCompact{Path: h.keccak([]byte(r.Pick(attKeys) + "x")), Commitment: r.Bytes(32)})
 	}
 	commitment := value
@@ -579,9 +580,9 @@ func (h *attHist) opAdmin() {
 
 func (h *attHist) history(mode string) {
 	r := h.e.r
-	n := 1 + r.Intn(4)
+	n := 1 + r.Intn(3)
 	if mode == "quorum" || mode == "signature-lists" {
-		n = 2 + r.Intn(3)
+		n = 2 + r.Intn(2)
 	}
 	for i := 0; i < n; i++ {
 		h.attestors = append(h.attestors, newAttestor(r))
@@ -612,7 +613,7 @@ func (h *attHist) history(mode string) {
 	h.clientID = id
 	init := map[string]any{"attestors": addrBytes, "min": hx.U(uint64(h.minSigs)), "latest": hx.U(latest), "frozen": false, "cons": h.consensus()}
 
-	nops := 5 + r.Intn(7)
+	nops := 3 + r.Intn(5)
 	for i := 0; i < nops; i++ {
 		special := mode != "valid" && r.Chance(3, 5)
 		if mode == "frozen" && i == 1 {
@@ -667,10 +668,11 @@ func famAttest(e *env) {
 	ck := e.chain.App.GetIBCKeeper().ClientKeeper
 
 	// verifySignatures alone (hook), with arbitrary type tags
-	n := hx.N(250, 8000)
+	n := hx.N(260, 8000)
 	for i := 0; i < n; i++ {
-		h := &attHist{e: e, cdc: cdc, ck: ck, recs: map[string][3]any{}, keccaks: map[string]string{}, decP: map[string]any{}, decS: map[string]any{}}
-		na := 1 + r.Intn(4)
+		h := &attHist{e: e, cdc: cdc, ck: ck, recs: map[string][3]any{}, keccaks: map[string]string{}, decP: map[string]any{}, decS: map[string]any{},
+			tags: []attestations.AttestationType{1, 2, 0, 3}}
+		na := 1 + r.Intn(3)
 		for j := 0; j < na; j++ {
 			h.attestors = append(h.attestors, newAttestor(r))
 		}
@@ -684,7 +686,7 @@ func famAttest(e *env) {
 			addrs = append(addrs, a.addr.Hex())
 			addrBytes = append(addrBytes, hx.H(a.addr[:]))
 		}
-		data := r.Bytes(r.Intn(100))
+		data := r.Bytes(r.Intn(48))
 		signTag := attestations.AttestationType([]byte{1, 2, 1, 2, 0, 3}[r.Intn(6)])
 		checkTag := signTag
 		note := "valid"
@@ -699,6 +701,10 @@ func famAttest(e *env) {
 			sigs = h.mutateSigs(data, signTag, &note)
 		} else {
 			sigs = h.signWith(data, signTag, h.attestors[:min(na, max(1, int(h.minSigs)))])
+		}
+		h.tags = []attestations.AttestationType{checkTag}
+		if signTag != checkTag {
+			h.tags = append(h.tags, signTag)
 		}
 		for _, s := range sigs {
 			h.recordRecover(data, s)
@@ -726,10 +732,11 @@ func famAttest(e *env) {
 			"tag": int(checkTag), "recover": recs}, res, note)
 	}
 
-	m := hx.N(180, 5000)
+	m := hx.N(81, 2700)
 	for i := 0; i < m; i++ {
 		ctx, _ := e.ctx.CacheContext()
-		h := &attHist{e: e, cdc: cdc, ck: ck, ctx: ctx, recs: map[string][3]any{}, keccaks: map[string]string{}, decP: map[string]any{}, decS: map[string]any{}}
+		h := &attHist{e: e, cdc: cdc, ck: ck, ctx: ctx, recs: map[string][3]any{}, keccaks: map[string]string{}, decP: map[string]any{}, decS: map[string]any{},
+			tags: []attestations.AttestationType{attestations.AttestationTypeState, attestations.AttestationTypePacket}}
 		h.history(attModes[i%len(attModes)])
 	}
 }
